@@ -133,6 +133,11 @@ class Parser(object):
     def __init__(self, toks, pos=0):
         self.t = toks
         self.p = pos
+        self.parens = set()      # id() of sub-trees that were written in parentheses
+
+    def _bare(self, e, *ops):
+        """e is an operator expression (optionally: with one of `ops` at its root) that was NOT parenthesised."""
+        return e[0] == "bin" and id(e) not in self.parens and (not ops or e[1] in ops)
 
     def peek(self):
         return self.t[self.p] if self.p < len(self.t) else (None, None)
@@ -185,7 +190,11 @@ class Parser(object):
     def not_(self):
         if self.at_id("not"):
             self.take()
-            return ("un", "not", self.not_())
+            x = self.not_()
+            if self._bare(x):
+                # BASIC dialects disagree on how tightly NOT binds (classic: looser than relations; p2c BASIC: a factor)
+                raise Unspecified("NOT directly before an unparenthesised operator expression")
+            return ("un", "not", x)
         return self.rel()
 
     def rel(self):
@@ -213,17 +222,19 @@ class Parser(object):
         return a
 
     def unary(self):
-        if self.at("op", "-"):
-            self.take()
-            return ("un", "-", self.unary())
-        if self.at("op", "+"):
-            self.take()
-            return self.unary()
+        if self.at("op", "-") or self.at("op", "+"):
+            sign = self.take()[1]
+            x = self.unary()
+            if self._bare(x, "^"):
+                raise Unspecified("unary sign directly before ^ (-a^b: dialects disagree)")
+            return ("un", sign, x)
         return self.power()
 
     def power(self):
         a = self.primary()
         while self.at("op", "^"):
+            if self._bare(a, "^"):
+                raise Unspecified("chained ^ (associativity: dialects disagree)")
             self.take()
             # the exponent may carry its own sign: 2 ^ -1
             if self.at("op", "-"):
@@ -234,8 +245,10 @@ class Parser(object):
             a = ("bin", "^", a, b)
         return a
 
-    def args(self):
+    def args(self, name="array"):
         self.need_op("(")
+        if self.at("op", ")"):
+            raise BasicError("%s with an empty argument list" % name.upper())
         out = [self.expr()]
         while self.at("op", ","):
             self.take()
@@ -252,12 +265,13 @@ class Parser(object):
         if k == "op" and v == "(":
             e = self.expr()
             self.need_op(")")
+            self.parens.add(id(e))
             return e
         if k == "id":
             if v in FUNCS:
                 if v == "time":
                     return ("call", "time", [])
-                return ("call", v, self.args())
+                return ("call", v, self.args(v))
             if v in KEYWORDS:
                 raise BasicError("keyword %s in expression" % v.upper())
             idx = self.args() if self.at("op", "(") else []
@@ -363,6 +377,7 @@ class Interp(object):
         self.data_ptr = None     # (line index, item index)
         self.data = None
         self.steps = 0
+        self.visited = set()     # line numbers that were executed
         li, pos = 0, 0
         try:
             while li < len(self.lines):
@@ -388,6 +403,7 @@ class Interp(object):
     def exec_line(self, li, pos):
         """Execute statements of line li starting at token position pos.  Returns None (fall to next line) or (li,pos)."""
         toks = self.lines[li]
+        self.visited.add(self.nums[li])
         P = Parser(toks, pos)
         while True:
             while P.at("op", ":"):
@@ -412,6 +428,7 @@ class Interp(object):
         k, v = P.peek()
         if k != "id":
             raise BasicError("statement expected")
+        self.cur_stmt = v if v in KEYWORDS else "let"
         if v == "rem":
             return "eol"
         if v == "let":
@@ -424,9 +441,8 @@ class Interp(object):
                 if P.at("op", ",") or P.at("op", ";"):
                     P.take()
                     continue
+                # items may also be juxtaposed without a separator (as in classic PRINT lists)
                 vals.append(self.ev(P.expr()))
-                if not (P.eos() or P.at("op", ",") or P.at("op", ";")):
-                    raise BasicError("separator expected in %s list" % v.upper())
             if v == "punch":
                 self.out_punch.extend(vals)
             elif v == "print":
@@ -503,16 +519,24 @@ class Interp(object):
                 raise BasicError("GOTO or GOSUB expected after ON")
             targets = []
             while True:
+                if P.eos():
+                    raise BasicError("malformed line-number list")
                 k2, v2 = P.take()
                 if k2 != "num" or not _isint(v2):
-                    raise BasicError("line number expected")
+                    raise BasicError("malformed line-number list")
                 targets.append(int(v2))
                 if P.at("op", ","):
                     P.take()
                     continue
                 break
             if not P.eos():
-                raise BasicError("extra information after ON list")
+                raise BasicError("malformed line-number list")
+            if kind == "gosub" and "on_gosub_frame" in self.quirks:
+                # defect model: the GOSUB frame is pushed before the selector is range-checked
+                self.stack.append(("gosub", (li, P.p)))
+                if i < 1 or i > len(targets):
+                    return None
+                return (self.find_line(targets[i - 1]), 0)
             if i < 1 or i > len(targets):
                 return None
             if kind == "gosub":
@@ -608,7 +632,7 @@ class Interp(object):
                 self.data_ptr = None
             else:
                 n = to_int(self.ev(P.expr()), "line number")
-                self.data_ptr = (self.find_line(n), 0, 0)
+                self.data_ptr = (self.find_line(n), None)
             return None
         if v == "dim":
             P.take()
@@ -661,6 +685,8 @@ class Interp(object):
                         P = Parser(toks, pos + 1)
                         self.skip_to_eos(P)
                         return (li, P.p)
+                    if pos + 1 < len(toks) and toks[pos + 1] == ("id", name):
+                        raise Unspecified("unbalanced FOR/NEXT inside the body of a zero-trip loop")
                     depth -= 1
                 pos += 1
             li, pos = li + 1, 0
@@ -685,36 +711,34 @@ class Interp(object):
         raise BasicError("WHILE without WEND")
 
     def next_datum(self):
-        """DATA items are read in line order; RESTORE n positions at the DATA statement of line n."""
-        li, si, ii = self.data_ptr if self.data_ptr is not None else (0, 0, 0)
+        """DATA items are consumed in line order and are only looked at when a READ reaches them (an item that is
+        never read is never evaluated); RESTORE n positions at the first DATA statement at or after line n."""
+        li, pos = self.data_ptr if self.data_ptr is not None else (0, None)
         while li < len(self.lines):
-            items = self.data_items(li)
-            if ii < len(items):
-                self.data_ptr = (li, 0, ii + 1)
-                return items[ii]
-            li, ii = li + 1, 0
-        raise BasicError("out of data")
-
-    def data_items(self, li):
-        toks = self.lines[li]
-        items = []
-        pos = 0
-        # statements of the line
-        while pos < len(toks):
-            if toks[pos] == ("id", "data"):
+            toks = self.lines[li]
+            P = None
+            if pos is not None and pos < len(toks) and toks[pos] == ("op", ","):
                 P = Parser(toks, pos + 1)
-                while True:
-                    e = P.expr()
-                    val = self.ev(e)
-                    items.append(val)
-                    if P.at("op", ","):
-                        P.take()
-                        continue
-                    break
-                pos = P.p
             else:
-                pos += 1
-        return items
+                if pos is not None:
+                    Q = Parser(toks, pos)
+                    if not Q.eos():
+                        raise BasicError("malformed DATA list")
+                j = 0 if pos is None else pos
+                while j < len(toks):
+                    if toks[j] == ("id", "data"):
+                        Q = Parser(toks, j + 1)
+                        if not Q.eos():
+                            P = Q
+                            break
+                    j += 1
+                if P is None:
+                    li, pos = li + 1, None
+                    continue
+            val = self.ev(P.expr())
+            self.data_ptr = (li, P.p)
+            return val
+        raise BasicError("out of data")
 
     # -------------------------------------------------------------------------------------------- variables
     def cell(self, var):
@@ -764,6 +788,8 @@ class Interp(object):
                 raise BasicError("number expected after unary operator")
             if e[1] == "-":
                 return Num(-x.v, x.u)
+            if e[1] == "+":
+                return x
             return Num(float(~exact_int(x, "NOT")))
         if k == "bin":
             return self.binop(e[1], self.ev(e[2]), self.ev(e[3]))
@@ -805,11 +831,15 @@ class Interp(object):
         if op == "^":
             return self.power(a, b)
         if op == "mod":
+            if "mod_residue" in self.quirks:
+                # defect model (only used to *name* a mismatch): a MOD b = sign(a) * fmod(|a| + 1e-14, b), also when an
+                # operand is itself such a residue
+                if a.u > 0 or b.u > 0 or b.v == 0:
+                    raise Unspecified("MOD (defect model) on an inexact value / zero divisor")
+                return Num(math.copysign(1.0, a.v) * math.fmod(abs(a.v) + 1e-14, b.v) if a.v != 0 else 0.0)
             x, y = exact_int(a, "MOD"), exact_int(b, "MOD")
             if x < 0 or y <= 0:
                 raise Unspecified("MOD of negative operand or zero divisor")
-            if "mod_residue" in self.quirks:
-                return Num(math.fmod(x + 1e-14, y) if x != 0 else 0.0)
             return Num(float(x % y))
         x, y = exact_int(a, op.upper()), exact_int(b, op.upper())
         r = x & y if op == "and" else (x | y if op == "or" else x ^ y)
@@ -985,14 +1015,15 @@ class Interp(object):
         raise AssertionError(f)
 
 
-def run_program(lines, mem=None, max_steps=20000, wide=True, time=1.0):
+def run_program(lines, mem=None, max_steps=20000, wide=True, time=1.0, quirks=()):
     """-> ("ok", Interp) | ("error", message) | ("unspecified", reason) | ("steplimit", None)"""
-    it = Interp(mem, max_steps, wide, time)
+    it = Interp(mem, max_steps, wide, time, quirks)
+    it.cur_stmt = "program"
     try:
         it.run(lines)
         return "ok", it
     except BasicError as e:
-        return "error", str(e)
+        return "error", "%s: %s" % (it.cur_stmt.upper(), e)
     except Unspecified as e:
         return "unspecified", str(e)
     except StepLimit:
